@@ -243,6 +243,9 @@ var Seeds13 = [][]string{
 	{"T", "|", "sort", "by", "not", "(", "a", ")", ",", "strcat", "(", "b", ")", "desc", "|", "count"},
 	{"T", "|", "where", "(", "(", "a", ">", "1", ")", ")", "|", "project", "b", "=", "(", "(", "a", ")", ")", "|", "top", "(", "(", "1", ")", ")", "by", "(", "(", "b", ")", ")"},
 	{"T", "|", "take", "1", "|", "top", "1", "by", "a", "asc", "nulls", "last", "|", "limit", "1"},
+	{"T", ";", "let", "a", "=", "1", ";", "U"},
+	{"let", "a", "=", "1", ";", "T", "|", "take", "a", ";", "let", "b", "=", "a", ";", "U", "|", "count"},
+	{"T", "|", "take", "2E3", "|", "top", "2E3", "by", "a"},
 }
 
 // H_C13seed checks "fails exactly when" on seed programs with n arbitrary corruptions.
